@@ -132,7 +132,7 @@ func helperEstablishes(h *ssa.Function, idx int, wantNil bool, g guardSpec, subs
 		}
 		for si, truth := range []bool{true, false} {
 			if a, ok := condAtom(iff.Cond, truth); ok {
-				a = Atom{subst(a.L), a.Op, subst(a.R)}
+				a = mkAtom(subst(a.L), a.Op, subst(a.R))
 				if _, sat := satisfiesAny(g, []Atom{a}); sat {
 					removed[edge{b, si}] = true
 					continue
